@@ -61,3 +61,27 @@ Proof.
   apply exception_within_finalized in E; auto.
   rewrite (proj2 (keqb_neq _ _) N1), (proj2 (keqb_neq _ _) N2), Hb in E. discriminate.
 Qed.
+
+Lemma kFinalized_not_block_key : forall b, ~ In kFinalized (block_keys b).
+Proof.
+  intros b H. unfold block_keys in H. repeat (apply in_app_iff in H; destruct H as [H|H]).
+  - destruct H as [H|[H|[]]]; discriminate H.
+  - destruct (b_txs b); [contradiction|]. apply in_app_iff in H. destruct H as [H|[H|[]]]; [|discriminate H].
+    apply in_map_iff in H. destruct H as (x & H & _). discriminate H.
+  - destruct (b_assets b); [|contradiction]. destruct H as [H|[]]. discriminate H.
+  - destruct H as [H|[]]. discriminate H.
+Qed.
+
+(* the deleteBlock batch never addresses the finalized-height marker: deleting blocks cannot lower it *)
+Theorem delete_keeps_marker : forall db c b st, sorted db -> cache_pref [pfxState] c ->
+  lookup (apply_writes (delete_batch (diff_of c) b st) db) kFinalized = lookup db kFinalized.
+Proof.
+  intros db c b st Hs Hpref. rewrite lookup_apply_writes by auto. apply fapply_notin.
+  unfold delete_batch. rewrite !map_app. intros Hin. apply in_app_iff in Hin. destruct Hin as [Hin|Hin].
+  - apply in_map_iff in Hin. destruct Hin as ([k1 ov] & Ek & Hin). simpl in Ek. subst k1.
+    apply in_revert_writes in Hin. destruct Hin as (e & Hc & _). specialize (Hpref _ Hc). simpl in Hpref. discriminate.
+  - apply in_app_iff in Hin. destruct Hin as [[E|[]]|Hin]; [discriminate E|].
+    rewrite remove_block_keys in Hin. apply in_app_iff in Hin. destruct Hin as [Hin|Hin].
+    + eapply kFinalized_not_block_key; eauto.
+    + destruct st; [|contradiction]. destruct Hin as [E|[]]. discriminate E.
+Qed.
